@@ -65,6 +65,7 @@ static _Atomic int g_nitems;
 static pthread_barrier_t g_bar;
 static _Atomic int g_fail, g_done_threads;
 static long g_chain;             /* plain counter: bumped by every item when the bottom is serial */
+static _Atomic int g_active;     /* items between Start and End (online form of the exclusion oracle) */
 static dispatch_semaphore_t g_flush_sem;
 
 static void oracle_fail(const char *what, long a, long b)
@@ -111,6 +112,8 @@ static void item_fn(void *ctxt)
 	item_t *it = ctxt;
 	it->start_seq = vrt_api("Start", g_obj[it->q], it->id, it->kind, it->q);
 	atomic_fetch_add(&it->runs, 1);
+	/* online: reported even if the execution later hangs or crashes and the recorded order is never judged */
+	if (atomic_fetch_add(&g_active, 1) != 0 && g_serial_bottom) oracle_fail("an item started while another item of the hierarchy was executing", it->id, it->q);
 	for (int k = 0; k < 4; k++) if (it->payload[k] != it->id * 7 + k) oracle_fail("submitter's writes not visible in item", it->id, k);
 	if (g_serial_bottom) g_chain++;
 	switch (it->body) {
@@ -125,6 +128,7 @@ static void item_fn(void *ctxt)
 	default: break;
 	}
 	it->result = it->id ^ 0x5a5a;
+	atomic_fetch_sub(&g_active, 1);
 	it->end_seq = vrt_api("End", g_obj[it->q], it->id, it->kind, it->q);
 }
 
@@ -315,7 +319,7 @@ static int settled(void)
 {
 	for (int k = 0; k < g_nq; k++) {
 		uint64_t s = *(volatile uint64_t *)&g_q[k]->dq_state;
-		if ((s & DISPATCH_QUEUE_DRAIN_OWNER_MASK) || _dq_state_is_enqueued(s) || _dq_state_is_dirty(s)) return 0;
+		if ((s & DISPATCH_QUEUE_DRAIN_OWNER_MASK) || _dq_state_is_enqueued(s)) return 0;
 		if (g_islane[k] && (upcast(g_q[k])._dl->dq_items_tail || upcast(g_q[k])._dl->dq_items_head)) return 0;
 	}
 	return 1;
@@ -403,7 +407,7 @@ int main(int argc, char **argv)
 		}
 		/* every End was logged; wait until the drainers have let go of every word (bounded: a lock that is
 		 * never released shows in the Quiesce check of the word-level validation and in the next execution) */
-		for (int w = 0; w < 4000 && !settled(); w++) usleep(500);
+		for (int w = 0; w < 20000 && !settled(); w++) { usleep(500); if (w % 1000 == 999) vrt_progress(); }
 		check_execution(n);
 		for (int k = 0; k < g_nq; k++) vrt_api("Quiesce", g_obj[k], -1, -1, k);
 		vrt_pause(1);
